@@ -203,7 +203,14 @@ def run_real(case, inp, opts, delta=None, normalize=None):
     except ValueError as e:
         return {'raise': str(e)[:80]}
     h = eng._h_krylov
-    return dict(E=None if E is None else float(E), psi=v.to_ndarray(), N=int(N),
+    mutated = []
+    if np.linalg.norm(psi.to_ndarray() - inp['v0']) > 0:
+        mutated.append('psi0')
+    if np.linalg.norm(H.to_ndarray() - inp['M']) > 0:
+        mutated.append('H')
+    if v is psi:
+        mutated.append('result-is-the-argument')
+    return dict(mutated=mutated, E=None if E is None else float(E), psi=v.to_ndarray(), N=int(N),
                 alphas=[float(h[k, k]) for k in range(N)], betas=[float(h[k, k + 1]) for k in range(N)],
                 vf=np.array(eng._result_krylov), Erow=np.array(eng.Es[N - 1, :N]),
                 rn=float(getattr(eng, '_result_norm', 1.0)), qtotal=[int(x) for x in v.qtotal],
@@ -303,6 +310,8 @@ def eval_gs(case):
             continue
         od = defaults(oo)
         shv = od['E_shift'] or 0.0
+        if r.get('mutated'):
+            fails.append(('property', 'lanczos.modifies-its-argument.' + '+'.join(r['mutated']), f'{tag}'))
         psi = r['psi'][idx]
         rest = np.delete(r['psi'], idx)
         if np.linalg.norm(rest) > 1e-12:
@@ -464,6 +473,8 @@ def eval_evo(case):
         if np.linalg.norm(x0) > 1e-6:
             fails.append(('property', 'evo.run.raises-on-valid-input', r['raise']))
         return fails, lines, info
+    if r.get('mutated'):
+        fails.append(('property', 'evo.modifies-its-argument.' + '+'.join(r['mutated']), ''))
     psi = r['psi'][idx]
     if np.linalg.norm(np.delete(r['psi'], idx)) > 1e-12:
         fails.append(('property', 'evo.result-leaves-charge-sector', ''))
